@@ -29,10 +29,10 @@ def rows_json(rows):
     return [[frac_str(x) for x in r] for r in rows]
 
 
-def rand_rows(rng, m, n, poly):
+def rand_rows(rng, m, n, poly, tenths=False):
     seen, out = set(), []
     while len(out) < m:
-        r = tuple(F(rng.randint(0, 3)) if poly else F(rng.randint(-3, 5), 2) for _ in range(n))
+        r = tuple(F(rng.randint(0, 3)) if poly else (F(rng.randint(-9, 12), 10) if tenths else F(rng.randint(-3, 5), 2)) for _ in range(n))
         if r not in seen:
             seen.add(r)
             out.append(list(r))
@@ -191,12 +191,33 @@ def gen_rcv_case(rng, allow_missing):
     return {'g': leaf(rows, cs, n, poly), 'ref': rows_json(ref), 'kind': kind}
 
 
+def gen_mra_cancel_case(rng):
+    """s = s0 e^{a.x} + s1 e^{(a+d).x} with Variable coefficients, h = 1 - e^{d.x}: with all coefficients of s set to one the
+    middle exponent a + d of s*h cancels, with symbolic coefficients it does not: it is absent from L, which must be an error"""
+    n = rng.randint(1, 2)
+    poly = rng.random() < 0.4
+    a = [F(rng.randint(0, 2)) for _ in range(n)]
+    d = [F(rng.randint(1, 2)) if j == 0 else F(rng.randint(0, 1)) for j in range(n)]
+    srows = [a, [x + y for x, y in zip(a, d)]]
+    hrows = [[F(0)] * n, d]
+    mid = srows[1]
+    need = [a, [x + 2 * y for x, y in zip(a, d)]]
+    Lrows = need + [r for r in rand_rows(rng, rng.randint(0, 2), n, poly) if r not in need and r != mid]
+    rng.shuffle(Lrows)
+    s = leaf(srows, [{'off': '0', 'co': [[i, '1']]} for i in range(2)], n, poly, sym=True, purevar=0)
+    L = leaf(Lrows, [{'off': '0', 'co': [[2 + i, '1']]} for i in range(len(Lrows))], n, poly, sym=True)
+    return {'sizes': [2, len(Lrows)], 's': s, 'h': leaf(hrows, ['1', '-1'], n, poly), 'L': L, 'kind': 'missing-by-cancellation'}
+
+
 def gen_mra_case(rng):
+    if rng.random() < 0.08:
+        return gen_mra_cancel_case(rng)
     n = rng.randint(1, 3)
     poly = rng.random() < 0.4
     ms, mh = rng.randint(1, 3), rng.randint(1, 3)
-    srows = rand_rows(rng, ms, n, poly)
-    hrows = rand_rows(rng, mh, n, poly)
+    tenths = not poly and rng.random() < 0.4        # exponents k/10: sums of their floats are NOT the floats of their sums
+    srows = rand_rows(rng, ms, n, poly, tenths)
+    hrows = rand_rows(rng, mh, n, poly, tenths)
     if rng.random() < 0.25:
         # h constant: the trivial modulator of every ell = 0 relaxation
         mh, hrows = 1, [[F(0)] * n]
@@ -215,7 +236,7 @@ def gen_mra_case(rng):
             r = [a + b for a, b in zip(si, hj)]
             if r not in need:
                 need.append(r)
-    extra = [r for r in rand_rows(rng, rng.randint(0, 3), n, poly) if r not in need]
+    extra = [r for r in rand_rows(rng, rng.randint(0, 3), n, poly, tenths) if r not in need]
     Lrows = need + extra
     rng.shuffle(Lrows)
     kind = 'contained'
